@@ -22,10 +22,47 @@ open CJ.Phantom CJ.Port CJ.Derive CJ.Drv
 
 def keySalt : String := "conjureconjureconjureconjure"
 
-def crypto : Crypto where
+/-- general (slow) instantiation: every stream byte is recomputed from the start of its chain -/
+def slowCrypto : Crypto where
   keyStream := fun secret => CJ.HKDF.reader (CJ.SHA256.ofList secret) keySalt.toUTF8 ByteArray.empty
   hk := { hk := fun seed info => CJ.HKDF.reader (CJ.SHA256.ofList seed) ByteArray.empty info.toUTF8, lim := CJ.HKDF.limit }
   hmac := fun secret label => CJ.SHA256.toList (CJ.SHA256.hmac (CJ.SHA256.ofList secret) label.toUTF8)
+  x25519Base := id
+
+/-- the first blocks of the three readers of one seed -/
+structure SeedCache where
+  seed : Bytes
+  sub : ByteArray
+  adr : ByteArray
+  port : ByteArray
+
+def mkSeedCache (seed : Bytes) : SeedCache :=
+  let prk := CJ.HKDF.extract ByteArray.empty (CJ.SHA256.ofList seed)
+  { seed := seed, sub := CJ.HKDF.okm prk labelSubnet.toUTF8 2, adr := CJ.HKDF.okm prk labelAddr.toUTF8 2,
+    port := CJ.HKDF.okm prk labelPort.toUTF8 1 }
+
+def SeedCache.get? (c : SeedCache) (seed : Bytes) (info : String) (j : Nat) : Option UInt8 :=
+  if seed != c.seed then none
+  else if info == labelSubnet then (if j < c.sub.size then some (c.sub.get! j) else none)
+  else if info == labelAddr then (if j < c.adr.size then some (c.adr.get! j) else none)
+  else if info == labelPort then (if j < c.port.size then some (c.port.get! j) else none)
+  else none
+
+/-- The same functions as `slowCrypto`, with the first blocks of the streams of *this* registration
+computed once (`ks`: key stream of `secret`; `cA`, `cB`: the readers of the two places the seed can
+sit).  Anything outside the caches falls back to `slowCrypto`, so the caches cannot change an answer. -/
+def cryptoFor (secret : Bytes) (ks : ByteArray) (cA cB : Thunk SeedCache) : Crypto where
+  keyStream := fun sec j =>
+    if sec == secret && j < ks.size then ks.get! j else slowCrypto.keyStream sec j
+  hk := { hk := fun seed info j =>
+            match cA.get.get? seed info j with
+            | some b => b
+            | none =>
+              match cB.get.get? seed info j with
+              | some b => b
+              | none => slowCrypto.hk.hk seed info j
+          lim := CJ.HKDF.limit }
+  hmac := slowCrypto.hmac
   x25519Base := id
 
 def parseTransport : String → Option Transport
@@ -62,6 +99,10 @@ def handle (args : List String) : Option String :=
                      transport := ← parseTransport tr, params := ← parseWire params }
     let cfg ← Phantom.parseCfg cfg
     let d ← Phantom.parseDraws draws
+    let ks := CJ.HKDF.firstBytes (CJ.SHA256.ofList r.secret) keySalt.toUTF8 ByteArray.empty 192
+    let cA : Thunk SeedCache := Thunk.mk fun _ => mkSeedCache (ks.extract 0 16).data.toList
+    let cB : Thunk SeedCache := Thunk.mk fun _ => mkSeedCache (ks.extract 104 120).data.toList
+    let crypto := cryptoFor r.secret ks cA cB
     match side with
     | "station" => do some (showD (← Phantom.runBoth d (stationDerive crypto genConsts cfg r)))
     | "client" =>
@@ -88,12 +129,13 @@ def handleHkdf (args : List String) : Option String :=
       (CJ.SHA256.ofList (← parseHex salt)) (CJ.SHA256.ofList (← parseHex info)) (← n.toNat?))))
   | _ => none
 
-/-- `clientHelloRandomFromSeed`: `hkdf.New(sha256.New, secret, "clientHelloRandomFromSeed", nil)`, 32 bytes -/
+/-- `clientHelloRandomFromSeed`: `hkdf.New(sha256.New, secret, "clientHelloRandomFromSeed", nil)`,
+`handshake.RandomBytesLength` = 28 bytes -/
 def handleDtlsHello (args : List String) : Option String :=
   match args with
   | [secret] => do
     some (toHex (CJ.SHA256.toList (CJ.HKDF.firstBytes (CJ.SHA256.ofList (← parseHex secret))
-      "clientHelloRandomFromSeed".toUTF8 ByteArray.empty 32)))
+      "clientHelloRandomFromSeed".toUTF8 ByteArray.empty 28)))
   | _ => none
 
 end CJ.Drv.Derive
